@@ -7,6 +7,7 @@ import (
 	"encoding/hex"
 	"fmt"
 	"os"
+	"path/filepath"
 	"sort"
 	"strings"
 
@@ -43,6 +44,8 @@ const (
 	opSaveWipeLoad
 	opRestart // SaveConfig, new process state, register, loadConfig
 	opReload  // new process state without saving first, register, loadConfig
+	opBreak   // persistence fault: the directory of config.json disappears (SaveConfig and loadConfig fail)
+	opRepair  // the directory (with the file as last written) is back
 	opValidateValue
 	opValidateConfig
 	opNewPerspective
@@ -63,6 +66,8 @@ func (o *op) site() string {
 		return "Replace[Default]Config"
 	case opSave, opLoad, opLoadStrict, opSaveWipeLoad, opRestart, opReload:
 		return "SaveConfig/loadConfig"
+	case opBreak, opRepair:
+		return "break/repair-persistence"
 	}
 	return "ValidateValue/ValidateConfig/NewPerspective"
 }
@@ -92,6 +97,10 @@ func (o *op) fn() string {
 		return "SaveConfig+restart+loadConfig"
 	case opReload:
 		return "restart+loadConfig"
+	case opBreak:
+		return "break-persistence"
+	case opRepair:
+		return "repair-persistence"
 	case opValidateValue:
 		return "Option.ValidateValue"
 	case opValidateConfig:
@@ -110,6 +119,8 @@ func (o *op) clause() string {
 		return "replace-installs-valid-reports-invalid"
 	case opSave, opLoad, opLoadStrict, opSaveWipeLoad, opRestart, opReload:
 		return "save-load-restores-user-values"
+	case opBreak, opRepair:
+		return "persistence-fault-alone-changes-nothing"
 	}
 	return "validation-only-calls-change-nothing"
 }
@@ -148,7 +159,9 @@ type fbGetter struct {
 type runner struct {
 	specs  []spec
 	m      *model
+	root   string // private directory of this runner; config.json lives in root/data
 	path   string
+	faulty bool     // persistence was broken when the current operation started
 	pre    []getter // created at the start, called after every step
 	lazy   []getter // created at the start, called only after the last step
 	preFB  []fbGetter
@@ -291,10 +304,49 @@ func (r *runner) makeGetters() {
 
 // reset: fresh process state, fresh model, no file.
 func (r *runner) reset() {
-	_ = os.Remove(r.path)
+	// cheap path: undo a fault of the previous history, delete the file
+	if r.m != nil && r.m.broken {
+		_ = os.Rename(r.offDir(), r.dataDir())
+	}
+	if err := os.Remove(r.path); err != nil && !os.IsNotExist(err) || r.m == nil {
+		_ = os.RemoveAll(r.dataDir())
+		_ = os.RemoveAll(r.offDir())
+		if err := os.MkdirAll(r.dataDir(), 0o755); err != nil {
+			panic(err)
+		}
+	} else if _, err := os.Stat(r.dataDir()); err != nil {
+		_ = os.RemoveAll(r.offDir())
+		if err := os.MkdirAll(r.dataDir(), 0o755); err != nil {
+			panic(err)
+		}
+	}
 	r.registerAll()
 	r.m = newModel(r.specs)
 	r.makeGetters()
+}
+
+func (r *runner) dataDir() string { return filepath.Dir(r.path) }
+func (r *runner) offDir() string  { return filepath.Join(r.root, "data.off") }
+
+// siteOf: operations run while saving fails get their own site, so that a
+// defect that needs the fault has its own signature.
+func (r *runner) siteOf(o *op) string {
+	if r.faulty {
+		switch o.kind {
+		case opBreak, opRepair:
+		default:
+			return o.site() + "@save-fails"
+		}
+	}
+	return o.site()
+}
+
+// readStored returns config.json as last written, also while the fault hides it.
+func (r *runner) readStored() ([]byte, error) {
+	if b, err := os.ReadFile(r.path); err == nil {
+		return b, nil
+	}
+	return os.ReadFile(filepath.Join(r.offDir(), "config.json"))
 }
 
 // perspMap: A = every option with its second valid sample; B = first valid samples, one invalid entry and an unknown key.
@@ -358,11 +410,12 @@ func buildMap(es []entry) map[string]interface{} {
 func (r *runner) apply(o *op) (f *finding, outcome string) {
 	r.steps++
 	m := r.m
+	r.faulty = m.broken
 	fail := func(disc, format string, a ...any) (*finding, string) {
-		return &finding{o.clause(), o.site(), disc, fmt.Sprintf(format, a...)}, "violation"
+		return &finding{o.clause(), r.siteOf(o), disc, fmt.Sprintf(format, a...)}, "violation"
 	}
 	panicked := func(p any, stack string) (*finding, string) {
-		return &finding{o.clause(), o.site(), "panic:" + vlib.PanicSite(stack) + ":" + panicKind(p), fmt.Sprintf("%s panicked: %v", o.name(), p)}, "panic"
+		return &finding{o.clause(), r.siteOf(o), "panic:" + vlib.PanicSite(stack) + ":" + panicKind(p), fmt.Sprintf("%s panicked: %v", o.name(), p)}, "panic"
 	}
 	switch o.kind {
 	case opSet, opSetDefault:
@@ -394,6 +447,54 @@ func (r *runner) apply(o *op) (f *finding, outcome string) {
 				return fail(w, "%s on an unregistered key returned no error", o.name())
 			}
 			return nil, o.fn() + ":unknown-key-error"
+		}
+		if sp != nil && m.broken && o.kind == opSet {
+			// Saving fails. Whatever the call returns, the operation must have
+			// taken effect everywhere or nowhere: which of the two is read from
+			// the implementation's own user layer; the probes then require
+			// every getter to agree with it.
+			var want *mv
+			if raw != nil {
+				v, cls := classify(sp, raw)
+				if cls == clsInvalid {
+					if w := errWord(err, true); w != "" {
+						return fail("invalid-value-accepted", "%s: the value violates the option's constraints but no error was returned", o.name())
+					}
+					return nil, o.fn() + ":save-fails:rejected"
+				}
+				want = v
+			}
+			var uv any
+			if p, st := vlib.Catch(func() {
+				opt, gerr := config.GetOption(o.key)
+				if gerr != nil {
+					panic(gerr)
+				}
+				uv = opt.UserValue()
+			}); p != nil {
+				return panicked(p, st)
+			}
+			var got *mv
+			if uv != nil {
+				got, _ = convert(uv)
+			}
+			old := l[o.key]
+			same := func(a, b *mv) bool { return (a == nil && b == nil) || (a != nil && b != nil && a.equal(b)) }
+			switch {
+			case same(got, want):
+				if want == nil {
+					delete(l, o.key)
+				} else {
+					l[o.key] = want
+				}
+				return nil, fmt.Sprintf("%s:save-fails:took-effect,error=%v", o.fn(), err != nil)
+			case same(got, old):
+				return nil, fmt.Sprintf("%s:save-fails:no-effect,error=%v", o.fn(), err != nil)
+			}
+			return fail("user-layer-neither-old-nor-new", "%s while saving fails: UserValue()=%#v, before %s, requested %s", o.name(), uv, old, want)
+		}
+		switch {
+		case sp == nil: // handled above
 		case raw == nil:
 			if w := errWord(err, false); w != "" {
 				return fail(w, "%s (unset) returned error %v", o.name(), err)
@@ -513,6 +614,9 @@ func (r *runner) apply(o *op) (f *finding, outcome string) {
 		if p, st := vlib.Catch(func() { err = config.SaveConfig() }); p != nil {
 			return panicked(p, st)
 		}
+		if m.broken {
+			return nil, fmt.Sprintf("SaveConfig:save-fails:error=%v", err != nil) // nothing is written, nothing may change (probed)
+		}
 		if err != nil {
 			return fail("error-instead-of-ok", "SaveConfig: %v", err)
 		}
@@ -522,6 +626,9 @@ func (r *runner) apply(o *op) (f *finding, outcome string) {
 		var err error
 		if p, st := vlib.Catch(func() { err = config.VerifLoadConfig(o.kind == opLoadStrict) }); p != nil {
 			return panicked(p, st)
+		}
+		if m.broken {
+			return nil, fmt.Sprintf("loadConfig:unreadable:error=%v", err != nil) // nothing can be read: nothing may change (probed)
 		}
 		if m.file == nil {
 			return nil, "loadConfig:no-file" // nothing saved yet: nothing may change (probed)
@@ -537,8 +644,8 @@ func (r *runner) apply(o *op) (f *finding, outcome string) {
 		p, st := vlib.Catch(func() {
 			if o.kind != opReload {
 				stage = "SaveConfig"
-				if err = config.SaveConfig(); err != nil {
-					return
+				if err = config.SaveConfig(); err != nil && (!m.broken || o.kind == opSaveWipeLoad) {
+					return // save+wipe+load stops when saving fails; a restart happens anyway
 				}
 			}
 			if o.kind == opSaveWipeLoad {
@@ -555,6 +662,19 @@ func (r *runner) apply(o *op) (f *finding, outcome string) {
 		if p != nil {
 			return panicked(p, st)
 		}
+		if m.broken {
+			// Saving fails and nothing can be read: save+wipe+load must stop
+			// at the failed save (or load nothing after the wipe); a new
+			// process starts with empty layers.
+			if o.kind == opSaveWipeLoad {
+				if stage != "SaveConfig" {
+					m.user = layer{}
+				}
+				return nil, o.fn() + ":save-fails:stopped-at-" + stage
+			}
+			m.user, m.def = layer{}, layer{}
+			return nil, o.fn() + ":save-fails:empty-start"
+		}
 		if o.kind != opReload {
 			m.file = m.user.clone()
 		}
@@ -570,6 +690,24 @@ func (r *runner) apply(o *op) (f *finding, outcome string) {
 		}
 		m.user = m.file.clone()
 		return nil, o.fn() + ":ok"
+	case opBreak:
+		if m.broken {
+			return nil, "break-persistence:already-broken"
+		}
+		if err := os.Rename(r.dataDir(), r.offDir()); err != nil {
+			return &finding{"harness", "break-persistence", "rename-failed", err.Error()}, "harness-error"
+		}
+		m.broken = true
+		return nil, "break-persistence"
+	case opRepair:
+		if !m.broken {
+			return nil, "repair-persistence:not-broken"
+		}
+		if err := os.Rename(r.offDir(), r.dataDir()); err != nil {
+			return &finding{"harness", "repair-persistence", "rename-failed", err.Error()}, "harness-error"
+		}
+		m.broken = false
+		return nil, "repair-persistence"
 	case opValidateValue:
 		var err error
 		opt, gerr := config.GetOption(o.key)
@@ -622,7 +760,7 @@ func (r *runner) apply(o *op) (f *finding, outcome string) {
 }
 
 func (r *runner) fileText() string {
-	b, err := os.ReadFile(r.path)
+	b, err := r.readStored()
 	if err != nil {
 		return "<" + err.Error() + ">"
 	}
@@ -659,7 +797,7 @@ func (r *runner) probe(o *op, last bool) *finding {
 	implRL := config.VerifReleaseLevel()
 	clause, site, opname := "initial-state", "Register", "(no operation)"
 	if o != nil {
-		clause, site, opname = o.clause(), o.site(), o.name()
+		clause, site, opname = o.clause(), r.siteOf(o), o.name()
 	}
 	// gateFinding: the implementation's gate and the effective release-level setting decide differently for this option.
 	gateFinding := func(sp *spec, api, got string) *finding {
@@ -806,7 +944,7 @@ func (r *runner) probe(o *op, last bool) *finding {
 // stateKey: private implementation state, file bytes and model state.
 func (r *runner) stateKey() string {
 	fileKey := "nofile"
-	if b, err := os.ReadFile(r.path); err == nil {
+	if b, err := r.readStored(); err == nil {
 		h := sha256.Sum256(b)
 		fileKey = hex.EncodeToString(h[:8])
 	}
